@@ -187,4 +187,4 @@ def replay(j):
     bad, _ = compare(j["text"], j["n"])
     print("program:\n" + j["text"])
     print("now:", bad or "simulator and reference machine agree")
-    return bad is not None
+    return bad is None          # True = the contract holds now
